@@ -6,6 +6,6 @@ CONSTANTS
   ClearOnFail = TRUE
   ClearOnReadFail = TRUE
   CtxEarly = FALSE
-  ClearLate = FALSE
-  UseLock = FALSE
-INVARIANT Deterministic
+  ClearLate = TRUE
+  UseLock = TRUE
+INVARIANT Isolation
